@@ -13,7 +13,7 @@ import torch
 from vf import walk, zoo
 
 MUT_KINDS = ["none", "arch", "param", "act", "rl_hp"]
-HISTORY_OPS = ["learn", "mut:arch", "mut:param", "mut:act", "mut:rl_hp", "mut:none", "clone", "select"]
+HISTORY_OPS = ["learn", "act", "mut:arch", "mut:param", "mut:act", "mut:rl_hp", "mut:none", "clone", "select"]
 
 
 # ------------------------------------------------------------------ RNG
@@ -70,6 +70,13 @@ def apply_history(agent, ops: List[str], seed: int, rec=None):
             m = make_mutations(kind, seed=s % 100000)
             seed_all(s)
             agent = m.mutation([agent], pre_training_mut=False)[0]
+        elif op == "act":
+            # acting in training mode is part of an agent's life: it advances observation-normalisation statistics
+            # (RSNorm), bandit confidence matrices, exploration-noise state, batch-norm statistics ...
+            seed_all(s)
+            zoo.unwrap(agent).set_training_mode(True)
+            obs = zoo.probe_obs(agent, 4, seed=s % 9973)
+            zoo.train_action(agent, obs)
         elif op == "clone":
             agent = agent.clone()
         elif op == "select":
@@ -92,8 +99,10 @@ def random_history(rng: np.random.Generator, max_len: int, algo: str) -> List[st
     ops = []
     for _ in range(n):
         r = rng.random()
-        if r < 0.4:
+        if r < 0.3:
             ops.append("learn")
+        elif r < 0.45:
+            ops.append("act")
         elif r < 0.8:
             ops.append("mut:" + MUT_KINDS[int(rng.integers(1, len(MUT_KINDS)))])
         elif r < 0.9:
